@@ -355,6 +355,12 @@ def representation(run):
         AB = E2.get(f"{AWQQ}::AWQBitsTensor")
         a = E2.call(AB, [qt, 0, G, tuple(ds), contiguous_strides(ds), codes, sc, zp], {})
         da = E2.call(E2.getattr(a, "dequantize"), [], {})
+        # detach / __tensor_unflatten__ / deserialization rebuild the tensor from its own (already packed) parts: same weights
+        try:
+            a2 = E2.call(AB, [qt, 0, G, tuple(ds), contiguous_strides(ds), a.fields["_data"], a.fields["_scale"], a.fields["_zeropoint"]], {})
+            E2.ps["awq_rebuilt"] = ("value", E2.call(E2.getattr(a2, "dequantize"), [], {}))
+        except RaiseEx as rx:
+            E2.ps["awq_rebuilt"] = ("raises", rx.exc)
         nw = len(E2.writes)
         own = [v.root() for v in a.fields.values() if isinstance(v, STensor)] + \
               [v.root() for v in getattr(a.fields.get("_data"), "fields", {}).values() if isinstance(v, STensor)]
@@ -415,6 +421,20 @@ def representation(run):
         want = sf(R, 0) * z3.ToReal(cf(R, Cc) - zf(R, 0))
         facts += E.drain()
         run.add(f"C15/awq-dequantizes-like-the-standard-representation/path{pi}", r.hyps + inb + facts, got == want, "property", inst, replay=rp, timeout=60)
+        rb = r.ps.get("awq_rebuilt")
+        rp_rb = lambda m, s: replay_rebuilt(m, s)
+        if rb is not None and rb[0] == "raises":
+            run.add(f"C15/rebuilt-from-its-own-parts/does-not-raise/path{pi}:{rb[1].tname}", r.hyps, z3.BoolVal(False), "property", inst, replay=rp_rb)
+        elif rb is not None:
+            d2 = rb[1]
+            run.add(f"C15/rebuilt-from-its-own-parts/shape/path{pi}", r.hyps, lib.shape_eq(d2.shape, ds), "property", inst, replay=rp_rb)
+            if len(d2.shape) == len(ds):
+                got2 = d2.elem(ids)
+                f2 = E.drain() + list(E.ps.get("lazy_facts", []))
+                for g in E.ps.get("groups", []):
+                    f2.append(CG.group_relation(E, g, ids)[0])
+                run.add(f"C15/rebuilt-from-its-own-parts/denotes-the-same-weights/path{pi}", r.hyps + inb + facts + f2 + E.drain(), got2 == got, "property", inst,
+                        replay=rp_rb, timeout=60)
         # conversion back
         if back[0] == "raises":
             run.add(f"C15/conversion-back/does-not-raise/path{pi}:{back[1].tname}", r.hyps, z3.BoolVal(False), "property", inst, replay=rp_back)
@@ -630,6 +650,32 @@ def _awq_cls():
     ns = {"AWQPackedTensor": P.AWQPackedTensor, "AWQPacking": P.AWQPacking, "__name__": "optimum.quanto.tensor.qbits.awq.qbits", "__package__": "optimum.quanto.tensor.qbits.awq"}
     exec(compile(src, AWQQ, "exec"), ns)
     return ns["AWQBitsTensor"]
+
+
+def replay_rebuilt(model, seed):
+    """An AWQ tensor rebuilt from its own parts (what detach / unflatten / deserialization do) dequantizes to the same weights -
+    also when the per-group parameter matrix is square (out_features == in_features // group_size)."""
+    import torch
+    from optimum.quanto import MaxOptimizer, qint4
+    from optimum.quanto.tensor.quantizers import AffineQuantizer
+
+    torch.manual_seed(seed)
+    A = _awq_cls()
+    for (o, i) in ((8, 128), (16, 256), (4, 512), (8, 1024), (2, 256), (1, 128)):
+        w = torch.randn(o, i, dtype=torch.float16)
+        sc, zp = MaxOptimizer()(w, bits=4, axis=0, group_size=128)
+        q = AffineQuantizer.apply(w, qint4, 0, 128, sc, zp)
+        a = A(qint4, 0, 128, q.size(), q.stride(), q._data.unpack(), q._scale, q._zeropoint)
+        want = a.dequantize()
+        try:
+            a2 = A(qint4, 0, 128, a.size(), a.stride(), a._data, a._scale, a._zeropoint)
+            got = a2.dequantize()
+        except Exception as e:
+            return {"what": f"rebuilding an AWQ tensor from its own parts raises {type(e).__name__}: {str(e)[:120]}", "shape": [o, i]}
+        if got.shape != want.shape or not torch.equal(got, want):
+            return {"what": "an AWQ tensor rebuilt from its own parts (detach / unflatten) dequantizes to different weights", "shape": [o, i],
+                    "max_abs_diff": (got.float() - want.float()).abs().max().item() if got.shape == want.shape else None}
+    return None
 
 
 def replay_conv(model, seed):
